@@ -332,6 +332,15 @@ def one_case(ctx, Time, TimeDelta, drv, scale, fmt, fmt2, scalar, dvals, evals, 
     else:
         negd = TimeDelta((-float(dvals[0])) if scalar else -np.array(dvals, dtype=float), fmt=fmt, scale=scale)
     law("t-d=t+(-d)", t - d, t + negd)
+    # the same laws with durations that come out of earlier arithmetic (their two parts hold more than one float can)
+    D = t2 - t
+    DD = d + e
+    law("t2-(t2-t1)=t1", t2 - D, t)
+    law("(t+D)-D=t [D=t2-t1]", (t + D) - D, t)
+    law("(t-D)+D=t [D=t2-t1]", (t - D) + D, t)
+    law("(t-D)+D=t [D=d1+d2]", (t - DD) + DD, t)
+    law("(t+D)-t=D [D=d1+d2]", (t + DD) - t, DD)
+    law("t-D=t+(-D) [D=t2-t1]", t - D, t + (t - t2))
     law("d1+d2=d2+d1", d + e, e + d)
     law("(d1+d2)-d2=d1", (d + e) - e, d)
     # the value read back in its own format is the value given ("identically for every duration format")
